@@ -134,6 +134,8 @@ Definition fgg_eq_model_b (a b : fgg) : bool :=
      4  the round trip raised an exception on a well-formed grammar; the model raises the same
      5  the edge-label tables differ (the rest was not examined)
      6  domains or factors differ (as dense tensors)
+     7  the round trip raised an exception on a well-formed grammar; the model does not raise it
+        (or raises another one, or writes another document)
     10  fgg_to_json differs from the model's JSON
     11  json_to_fgg differs from the model's grammar (up to numbering of implicit ids)
     12  the second JSON differs from the model's
@@ -148,12 +150,12 @@ Definition c14_fgg_check (x : list str * fgg_w * bool * rt_obs) : nat :=
       if is_fgg then json_to_fgg_model 0 j
       else do h <- json_to_hrg_model 0 j; Ok (mkFGG h [] []) in
   match obs with
-  | ObsToErr e => match to_model with Err e' => if err_eqb e e' then 4 else 13 | Ok _ => 13 end
+  | ObsToErr e => match to_model with Err e' => if err_eqb e e' then 4 else 7 | Ok _ => 7 end
   | ObsFromErr j e =>
       match to_model with
-      | Err _ => 13
-      | Ok jm => if negb (json_eqb jm j) then 10
-                 else match from_model j with Err e' => if err_eqb e e' then 4 else 13 | Ok _ => 13 end
+      | Err _ => 7
+      | Ok jm => if negb (json_eqb jm j) then 7
+                 else match from_model j with Err e' => if err_eqb e e' then 4 else 7 | Ok _ => 7 end
       end
   | ObsOk j gw' perms j2 =>
       let g' := fgg_of gw' in
@@ -207,6 +209,7 @@ Inductive w_obs := WDense (t : tens) | WErr (e : err).
      2 harness bug: the JSON fed to the implementation is not [wspec_to_json] of the specification,
        or the specification is not well formed
      4 a well-formed specification was rejected (the model rejects it in the same way)
+     7 a well-formed specification was rejected (the model accepts it, as C14_patterned_weights says it must)
     10 differs from the model's dense tensor
     13 exception kinds differ *)
 Definition c14_weights_check (x : option wspec * json * w_obs) : nat :=
@@ -216,7 +219,7 @@ Definition c14_weights_check (x : option wspec * json * w_obs) : nat :=
   | Some s =>
       if negb (wf_wspec s && json_eqb (wspec_to_json s) j) then 2
       else match obs with
-           | WErr e => match m with Err e' => if err_eqb e e' then 4 else 13 | Ok _ => 13 end
+           | WErr e => match m with Err e' => if err_eqb e e' then 4 else 7 | Ok _ => 7 end
            | WDense t =>
                match spec_dense s with
                | None => 2
